@@ -718,6 +718,38 @@ def _renorm(ctx, rule):
     return c14.r2_renormalisation(ctx, rule)
 
 
+def r13_recorded_encoding_verbatim(ctx, rule):
+    """The guesser reads - and PRINCE-LING writes its word list - with the encoding the trainer recorded: _load_config stores
+    config.get('TRAINING_DATASET_DETAILS', 'encoding') into ruleset_info['encoding'] as it is, once.  (Seed C17-j mapped utf-8 to
+    utf-8-sig "to tolerate byte order marks": every file the tool writes with that encoding then starts with a BOM glued to the
+    first word, so the list in the file differs from the list on stdout.)"""
+    q = GIO + '_load_config'
+    fn = ctx.fn(q)
+    stores = stores_in(fn)
+    sts = [s_ for s_ in walk_stmts(fn.body) if isinstance(s_, ast.Assign) and len(s_.targets) == 1 and isinstance(s_.targets[0], ast.Subscript)
+           and const(s_.targets[0].slice) == 'encoding']
+    if not ctx.floor(rule, q, len(sts), 1, "stores to ruleset_info['encoding']"):
+        return
+    bad = False
+    for s_ in sts:
+        v = s_.value
+        name_defs = stores.get(v.id, []) if isinstance(v, ast.Name) else []
+        e = expand(fn, v, stores)
+        ok_ = isinstance(e, ast.Call) and isinstance(e.func, ast.Attribute) and e.func.attr == 'get' and len(e.args) == 2 \
+            and const(e.args[1]) == 'encoding' and len(name_defs) <= 1
+        if not ok_:
+            bad = True
+            ctx.bad(rule, q, "ruleset_info['encoding'] = %s%s" % (U(e)[:60], ' (re-bound %d times)' % len(name_defs) if len(name_defs) > 1 else ''),
+                    'the encoding must be the recorded one: it is used to read every rule file and to write the --output file, and a '
+                    'different codec (utf-8-sig, a fallback, a normalised alias with other error handling) changes what is read or written',
+                    None, s_)
+    if len(sts) > 1:
+        bad = True
+        ctx.bad(rule, q, "ruleset_info['encoding'] stored %d times" % len(sts), 'stored once, as recorded', None, sts[1])
+    if not bad:
+        ctx.ok(rule, q, "ruleset_info['encoding'] is config.get(<section>, 'encoding'), stored once")
+
+
 def _not_aliased(ctx, rule):
     # what is read back for one file must not also be what is read back for another (seed C07-i: M, E and W one list)
     from . import c01
@@ -728,7 +760,7 @@ def rules(tier):
     return [('C07.R1', r1_separator_inclusion), ('C07.R2', lambda c, r: r2_encoding_agreement(c, r)),
             ('C07.R3', r3_record_layout), ('C07.R5', r5_strip_discipline), ('C07.R6', r6_wipe_before_write),
             ('C07.R7', r7_paths_written), ('C07.R8', c04.r5_grouping_kernel), ('C07.R9', lambda c, r: c03.r1_tag_chain(c, r, scope='disk')),
-            ('C07.R10', r10_loader_complete), ('C07.R11', _renorm), ('C07.R12', _not_aliased)]
+            ('C07.R10', r10_loader_complete), ('C07.R11', _renorm), ('C07.R12', _not_aliased), ('C07.R13', r13_recorded_encoding_verbatim)]
 
 
 META = {
